@@ -56,6 +56,10 @@ structure Totals where
   monitorFail : Nat := 0
   bad : Nat := 0
   reported : Nat := 0
+  /-- monitor failures printed so far, per shape (tag + the detail with its numbers blanked): a
+      shape that occurs thousands of times (a recorded finding, a systematic divergence) must not
+      use up the report budget and hide another shape further down -/
+  shapes : List (String × Nat) := []
 
 def splitLine (line : String) : List String × String :=
   match line.splitOn " => " with
@@ -83,9 +87,12 @@ partial def loop {σ} (h : Handler σ) (inp : IO.FS.Stream) (st : σ) (t : Total
         IO.println s!"diverge case={caseId} line={t.lines} op={" ".intercalate op} model={m} impl={i}"
       loop h inp st' { t with diverge := t.diverge + 1, reported := t.reported + 1 } caseId
     | .monitorFail tag d =>
-      if t.reported < maxReport then
+      let shape := tag ++ "|" ++ String.ofList (((d.toList.map (fun c => if c.isDigit then '#' else c)).take 70))
+      let seen := (t.shapes.find? (·.1 == shape)).map (·.2) |>.getD 0
+      if seen < 25 && t.shapes.length < 400 then
         IO.println s!"monitor-fail case={caseId} line={t.lines} tag={tag} op={" ".intercalate op} impl={out} detail={d}"
-      loop h inp st' { t with monitorFail := t.monitorFail + 1, reported := t.reported + 1 } caseId
+      let shapes := if seen == 0 then t.shapes ++ [(shape, 1)] else t.shapes.map (fun p => if p.1 == shape then (p.1, p.2 + 1) else p)
+      loop h inp st' { t with monitorFail := t.monitorFail + 1, shapes := shapes } caseId
     | .bad why =>
       if t.reported < maxReport then
         IO.println s!"bad-line case={caseId} line={t.lines} op={" ".intercalate op} why={why}"
